@@ -118,6 +118,10 @@ func (c *Ctx) traceAccessor(v ssa.Value) string {
 		}
 		seen[v] = true
 		switch x := v.(type) {
+		case *ssa.Parameter:
+			if b, ok := c.accBind[x]; ok {
+				return rec(b, d+1)
+			}
 		case *ssa.Call:
 			if f := x.Call.StaticCallee(); f != nil && strings.HasPrefix(f.Name(), "Field") && f.Signature.Recv() != nil {
 				if rel, ok := c.P.PkgOf(f); ok && rel == "data" {
@@ -262,9 +266,7 @@ func (c *Ctx) helperEncEntries(h *ssa.Function, tag *ssa.Call) []encEntry {
 			continue
 		}
 		app = pwName(rc)
-		if p, ok := core.Unconv(rc.Call.Args[1]).(*ssa.Parameter); ok {
-			valParam = p
-		}
+		valParam = rootParam(rc.Call.Args[1])
 	}
 	valIdx := -1
 	for i, p := range h.Params {
@@ -1069,4 +1071,48 @@ func (c *Ctx) helperConsumes(d *decoder, call *ssa.Call, w int64) (string, []str
 		}
 	}
 	return found, fields
+}
+
+// rootParam follows conversions and accessor-method chains (x.Must().Int()) down to the parameter they start from.
+func rootParam(v ssa.Value) *ssa.Parameter {
+	for i := 0; i < 8; i++ {
+		switch x := core.Unconv(v).(type) {
+		case *ssa.Parameter:
+			return x
+		case *ssa.Call:
+			if x.Call.IsInvoke() {
+				v = x.Call.Value
+				continue
+			}
+			if f := x.Call.StaticCallee(); f != nil && f.Signature.Recv() != nil && len(x.Call.Args) > 0 {
+				v = x.Call.Args[0]
+				continue
+			}
+			return nil
+		case *ssa.UnOp:
+			v = x.X
+			continue
+		default:
+			return nil
+		}
+	}
+	return nil
+}
+
+// withAccBind evaluates f with the parameters of a helper bound to the arguments of one of its call sites, so that accessor
+// tracing (traceAccessor, existsCond) resolves through them.
+func (c *Ctx) withAccBind(h *ssa.Function, call *ssa.Call, f func()) {
+	saved := c.accBind
+	nb := map[*ssa.Parameter]ssa.Value{}
+	for k, v := range saved {
+		nb[k] = v
+	}
+	for i, p := range h.Params {
+		if i < len(call.Call.Args) {
+			nb[p] = call.Call.Args[i]
+		}
+	}
+	c.accBind = nb
+	f()
+	c.accBind = saved
 }
